@@ -304,6 +304,28 @@ impl Property for C20 {
                 "+BUILD-INFO", "++COMMENT", "+REQUIRED_BY\n",
             ])
             .to_string()];
+        // one of the 14 names with a decoration: none of these is a '+' file name
+        let mut probes = probes;
+        for _ in 0..2 {
+            let base = *rng.pick(&FILE_NAMES);
+            let d = match rng.below(14) {
+                0 => format!("./{}", base),
+                1 => format!("/{}", base),
+                2 => format!("../{}", base),
+                3 => format!("foo-1.0/{}", base),
+                4 => format!("{}/", base),
+                5 => format!("{} ", base),
+                6 => format!(" {}", base),
+                7 => format!("{}\n", base),
+                8 => format!("{}\0", base),
+                9 => base.to_ascii_lowercase(),
+                10 => base[..base.len() - 1].to_string(),
+                11 => base[1..].to_string(),
+                12 => format!("{}.orig", base),
+                _ => format!("+{}", base),
+            };
+            probes.push(d);
+        }
         Sc {
             db,
             pkgs,
@@ -529,7 +551,7 @@ impl Property for C20 {
                     sc.pkgs.len() + sc.strays.len()
                 );
             }
-            match db.next() {
+            match metered!(ctx, 512, db.next()) {
                 None => break,
                 Some(Ok(p)) => yielded.push((p.pkgname().clone(), p.pkgbase().clone(), p.pkgversion().clone())),
                 Some(Err(_)) => errors += 1,
@@ -760,7 +782,7 @@ impl Property for C20 {
             };
             let mut md = if pi % 2 == 0 { Metadata::new() } else { Metadata::default() };
             for f in 0..NFILES {
-                let got = pkg.read_metadata(entry(f));
+                let got = metered!(ctx, if exists[pi][f] { sc.pkgs[pi].contents[f].len() } else { 0 } + 256, pkg.read_metadata(entry(f)));
                 ctx.step("read_metadata", pi as u64, f as u64);
                 match (&got, exists[pi][f]) {
                     (Ok(s), true) => ensure!(
@@ -894,6 +916,9 @@ impl Property for C20 {
         }
     }
 
+    fn work_factor(&self) -> Option<u64> {
+        Some(64)
+    }
     fn rule(&self) -> String {
         "Each run draws a database configuration: 0..8 package directories (names with one or several '-', nb \
          revisions, empty base or version, non-ASCII; rarely without '-' or non-UTF-8), each installed by writing its \
